@@ -52,7 +52,7 @@ static void do_rsa(vf_case *c) {
 	/* mutated ciphertexts: verdict and plaintext must equal OpenSSL's */
 	#define RSAMUT(CT, CL, DESC) do { memset(out, 0xA5, k + 24); ol = k; VF_TRY(th, v = cp_rsa_dec(out, &ol, CT, CL, prv)); ol2 = k; int ok2 = (CL == k) ? ossl_oaep_dec(pk, o2, &ol2, CT, CL) : 0; int ok1 = !th && v == RLC_OK; \
 		CHECK(ok1 == ok2, "cp_rsa_dec %s a ciphertext that OpenSSL %s: %s", ok1 ? "accepts" : "rejects", ok2 ? "accepts" : "rejects", DESC); if (ok1 && ok2) CHECK(ol == ol2 && !memcmp(out, o2, ol), "cp_rsa_dec and OpenSSL decrypt %s to different plaintexts", DESC); } while (0)
-	if (len % 5 == 0 || len == max || len <= 1) { char desc[96];
+	if (vf_tier || len % 2 == 0 || len == max || len <= 1) { char desc[96];
 		for (size_t b = 0; b < cl; b += (vf_tier ? 1 : 3)) { memcpy(c2, ct, cl); c2[b] ^= (uint8_t)(1u << (b % 8)); snprintf(desc, sizeof desc, "byte %zu with one bit flipped", b); RSAMUT(c2, cl, desc); }
 		mpz_t N, C, t; mpz_inits(N, C, t, NULL); vf_bn_get(N, pub->crt->n); mpz_import(C, cl, 1, 1, 0, 0, ct);
 		#define PUT(T) do { memset(c2, 0, k); size_t nn = (mpz_sizeinbase(T, 2) + 7) / 8; if (mpz_sgn(T) && nn <= k) mpz_export(c2 + k - nn, NULL, 1, 1, 0, 0, T); } while (0)
@@ -174,10 +174,10 @@ static vf_case K;
 static void enumerate(void) {
 	vf_case_init(&K);
 	static const int EC[] = {NIST_P256, BSI_P256, SECG_K256, SM2_P256, BN_P256, SM9_P256}; static const int PC[] = {BN_P256, SM9_P256};
-	if (vf_bound_on("rsa-oaep")) { static const long BITS[] = {768, 1024, 2048}; for (int bi = 0; bi < (vf_tier ? 3 : 2); bi++) { long k = BITS[bi] / 8, max = k - 66; for (long len = 0; len <= max + 2; len++) for (long pat = 0; pat < (vf_tier ? 4 : 2); pat++) if (vf_mine()) { K.op = "rsa"; K.n = 4; mpz_set_si(K.v[0], BITS[bi]); mpz_set_si(K.v[1], 0); mpz_set_si(K.v[2], len); mpz_set_si(K.v[3], pat * 3 % 4); vf_run(&K); } } vf_bound_done("rsa-oaep"); }
-	if (vf_bound_on("homomorphic")) { for (int sch = 0; sch < 6; sch++) for (int sd = 0; sd < (vf_tier ? 3 : 1); sd++) for (int bi = 0; bi < 2; bi++) { if (bi && sch < 4) continue; /* n^2 arithmetic of the Paillier family fits the configured precision only up to 512-bit moduli */ if (vf_mine()) { K.op = "he"; K.n = 3; mpz_set_si(K.v[0], sch); mpz_set_si(K.v[1], bi ? 1024 : 512); mpz_set_si(K.v[2], sd); vf_run(&K); } } vf_bound_done("homomorphic"); }
-	if (vf_bound_on("ecies-ecdh-ecmqv")) { for (unsigned ci = 0; ci < 6; ci++) for (int sd = 0; sd < (vf_tier ? 3 : 1); sd++) { for (long len = 0; len <= 66; len += (vf_tier || ci == 0 ? 1 : 5)) if (vf_mine()) { K.op = "ec"; K.n = 4; mpz_set_si(K.v[0], 0); mpz_set_si(K.v[1], EC[ci]); mpz_set_si(K.v[2], sd); mpz_set_si(K.v[3], len); vf_run(&K); }
-			static const long KL[] = {1, 16, 32, 33, 64, 65}; for (int kind = 1; kind <= 2; kind++) for (int ki = 0; ki < 6; ki++) for (int s2 = 0; s2 < (vf_tier ? 8 : 3); s2++) if (vf_mine()) { K.op = "ec"; K.n = 4; mpz_set_si(K.v[0], kind); mpz_set_si(K.v[1], EC[ci]); mpz_set_si(K.v[2], sd * 10 + s2); mpz_set_si(K.v[3], KL[ki]); vf_run(&K); } } vf_bound_done("ecies-ecdh-ecmqv"); }
+	if (vf_bound_on("rsa-oaep")) { static const long BITS[] = {768, 1024, 2048}; for (int bi = 0; bi < (vf_tier ? 3 : 2); bi++) { long k = BITS[bi] / 8, max = k - 66; for (long len = 0; len <= max + 2; len++) for (long pat = 0; pat < 4; pat++) if (vf_mine()) { K.op = "rsa"; K.n = 4; mpz_set_si(K.v[0], BITS[bi]); mpz_set_si(K.v[1], 0); mpz_set_si(K.v[2], len); mpz_set_si(K.v[3], pat); vf_run(&K); } } vf_bound_done("rsa-oaep"); }
+	if (vf_bound_on("homomorphic")) { for (int sch = 0; sch < 6; sch++) for (int sd = 0; sd < (vf_tier ? 6 : 2); sd++) for (int bi = 0; bi < 2; bi++) { if (bi && sch < 4) continue; /* n^2 arithmetic of the Paillier family fits the configured precision only up to 512-bit moduli */ if (vf_mine()) { K.op = "he"; K.n = 3; mpz_set_si(K.v[0], sch); mpz_set_si(K.v[1], bi ? 1024 : 512); mpz_set_si(K.v[2], sd); vf_run(&K); } } vf_bound_done("homomorphic"); }
+	if (vf_bound_on("ecies-ecdh-ecmqv")) { for (unsigned ci = 0; ci < 6; ci++) for (int sd = 0; sd < (vf_tier ? 3 : 1); sd++) { for (long len = 0; len <= 66; len += (vf_tier || ci == 0 ? 1 : 2)) if (vf_mine()) { K.op = "ec"; K.n = 4; mpz_set_si(K.v[0], 0); mpz_set_si(K.v[1], EC[ci]); mpz_set_si(K.v[2], sd); mpz_set_si(K.v[3], len); vf_run(&K); }
+			static const long KL[] = {1, 16, 32, 33, 64, 65}; for (int kind = 1; kind <= 2; kind++) for (int ki = 0; ki < 6; ki++) for (int s2 = 0; s2 < (vf_tier ? 16 : 6); s2++) if (vf_mine()) { K.op = "ec"; K.n = 4; mpz_set_si(K.v[0], kind); mpz_set_si(K.v[1], EC[ci]); mpz_set_si(K.v[2], sd * 10 + s2); mpz_set_si(K.v[3], KL[ki]); vf_run(&K); } } vf_bound_done("ecies-ecdh-ecmqv"); }
 	if (vf_bound_on("pairing-encryption")) { for (unsigned ci = 0; ci < 2; ci++) { for (long len = 0; len <= 40; len += (vf_tier ? 1 : 4)) if (vf_mine()) { K.op = "pe"; K.n = 4; mpz_set_si(K.v[0], 0); mpz_set_si(K.v[1], PC[ci]); mpz_set_si(K.v[2], 0); mpz_set_si(K.v[3], len); vf_run(&K); }
 			for (long par = 0; par < 17 * 17; par += (vf_tier ? 1 : 7)) if (vf_mine()) { K.op = "pe"; K.n = 4; mpz_set_si(K.v[0], 1); mpz_set_si(K.v[1], PC[ci]); mpz_set_si(K.v[2], 0); mpz_set_si(K.v[3], par); vf_run(&K); } } vf_bound_done("pairing-encryption"); }
 	if (vf_bound_on("sharing")) { for (long n = 1; n <= 5; n++) for (long k = 1; k <= n; k++) for (int sel = 0; sel < 4; sel++) for (int sd = 0; sd < (vf_tier ? 3 : 1); sd++) if (vf_mine()) { K.op = "sss"; K.n = 4; mpz_set_si(K.v[0], k); mpz_set_si(K.v[1], n); mpz_set_si(K.v[2], sel); mpz_set_si(K.v[3], sd); vf_run(&K); }
